@@ -1323,7 +1323,20 @@ func (h *histPhase) report() {
 			}
 		}
 		if chosen == nil {
+			// The leak came from a generation of an earlier history of the same worker process: try every
+			// two-element sequence [x, g] with x taken from the process prefix, else keep the whole prefix.
 			chosen, seq = &recs[0], recs[0].Prefix
+			tried := map[int]bool{}
+			for _, x := range recs[0].Prefix[:len(recs[0].Prefix)-1] {
+				if tried[x] || gs[x].Heavy || len(tried) >= 16 {
+					continue
+				}
+				tried[x] = true
+				if diffs := runSeq(c, h.refdir, []int{x, recs[0].G}); len(diffs) > 0 {
+					seq = []int{x, recs[0].G}
+					break
+				}
+			}
 		}
 		what := fmt.Sprintf("%s generated after [%s] in the same process differs from a fresh process: %s",
 			gs[chosen.G].Name, strings.Join(histNames(gs, seq[:len(seq)-1]), ", "), chosen.Diff)
